@@ -17,7 +17,7 @@ EXPLANATION = ('Theorems about the Lean model of salsa\'s fixpoint iteration sch
                'The model abstracts salsa\'s cross-revision reuse of finalised cycle memos (a write drops all memos): it is the from-scratch '
                'semantics of the iteration scheme. Tied to salsa by comparing every request of generated cyclic programs x histories (create / '
                'remove / reshape cycles, finalised acyclic feeders) with the Lean model AND with an independent Kleene-iteration oracle.')
-ASSUMPTIONS = ['conditionally formed cycles whose shape depends on VALUES (gates): CycleRev models them and is compared byte for byte, but the least-fixpoint theorems exclude gates, so correctness there rests on the Kleene oracle',
+ASSUMPTIONS = ['conditionally formed cycles whose shape depends on VALUES (gates): both Lean models have the gate and are compared with salsa; the least-fixpoint theorems cover gated programs (`c12_lfp`, `c12_full_gated`, `c12rev_exact_if_closed`), but termination (`c12_terminates`), the ascending chain (`c12_chain`) and `c12_pass_total` are proved for gate-free programs only: with gates the chain is FALSE (`c12_chain_fails_with_gates`: a query that becomes a new nested head restarts from bottom and values drop between passes, in salsa as in the model) and termination is open (never observed to fail)',
                'cross-revision reuse of finalised cycle results is covered by the oracle only (known finding kf2 lives exactly there; its key is '
                'recognised by mechanism: a node that was a cycle member at its last execution and was only re-validated since)',
                'the termination bound is proved for 8*n < 200 (n <= 24 functions); the per-bit argument that would give n < 200 is not formalised']
@@ -27,9 +27,10 @@ def ties(ctx):
     from seq_common import run_seq
     return [compare_cycle_rev(ctx, run_cycle(ctx, n, known_keys=KNOWN, flavours='0,4', corpus='C12'), 'cycle'),
             # monotone programs with VALUE-controlled gates (`? <expr> <expr> c0`: the guarded calls only happen once bit 0 of
-            # the guard is set), i.e. cycles that form and grow while iterating: Kleene-iteration oracle + byte-exact comparison
-            # with the CycleRev model (whose lfp theorems, however, exclude gates: `NoAdd`)
-            compare_cycle_rev(ctx, run_seq(ctx, 'cycle', n, seed_offset=17, tag='cycle-gated', gen_extra=['--flavours', '6']), 'cycle-gated')]
+            # the guard is set), i.e. cycles that form, grow and reshape while iterating: Kleene-iteration oracle + comparison of
+            # values / panic classes with the Lean Cycle model (whose lfp theorems cover gates: `c12_lfp`, `c12_full_gated`) +
+            # byte-exact comparison with the CycleRev model (`NoAdd` no longer excludes gates: `c12rev_exact_if_closed`)
+            compare_cycle_rev(ctx, run_cycle(ctx, n, known_keys=KNOWN, flavours='6', seed_offset=17, tag='cycle-gated'), 'cycle-gated')]
 
 def search(ctx, reason):
     t = run_cycle(ctx, 200000, known_keys=KNOWN, flavours='0,4', seed_offset=97, tag='search-cycle')
